@@ -582,6 +582,12 @@ func cmdCheck(args []string) int {
 		phases = []k.Engine{eng, k.EngineByName("L")}
 		shares = []float64{0.6, 0.4}
 	}
+	if *prop == "C13" {
+		// the poll transport itself (registry, worker, handler) under connection histories: a panic
+		// there takes the server down when a stored task is dispatched
+		phases = []k.Engine{eng, k.EngineByName("P")}
+		shares = []float64{0.85, 0.15}
+	}
 	if *prop == "C18" {
 		// what reaches the poll transport comes from the production sender: the kernel engine adds the
 		// hand-off itself (address and bytes as the transport holds them until a listener takes them)
@@ -960,13 +966,22 @@ func classifyDeath(stderr string) *k.Violation {
 		if frame == "" {
 			return nil
 		}
-		return &k.Violation{Rule: "hang", Props: []string{"C12"}, Kind: "process", Cond: "a production call never returned: every goroutine is blocked", Frame: frame, Detail: firstLines(stderr[i:], 40)}
+		props := []string{"C12", "C13"}
+		if strings.Contains(frame, "subsystems/api") {
+			// a front end (or the api helper both share) that never answers drops the reply
+			props = append(props, "C15")
+		}
+		return &k.Violation{Rule: "hang", Props: props, Kind: "process", Cond: "a production call never returned: every goroutine is blocked", Frame: frame, Detail: firstLines(stderr[i:], 40)}
 	}
 	frame := productionFrame(stderr)
 	if frame == "" {
 		return nil
 	}
-	return &k.Violation{Rule: "panic", Props: []string{"C13", "C12"}, Kind: "process", Cond: panicMessage(stderr), Frame: frame, Detail: firstLines(stderr, 30)}
+	pprops := []string{"C13", "C12"}
+	if strings.Contains(frame, "subsystems/api") {
+		pprops = append(pprops, "C15")
+	}
+	return &k.Violation{Rule: "panic", Props: pprops, Kind: "process", Cond: panicMessage(stderr), Frame: frame, Detail: firstLines(stderr, 30)}
 }
 
 func productionFrame(stderr string) string {
@@ -1134,6 +1149,9 @@ func cmdSelftest(args []string) int {
 		}
 		if p == "C16" || p == "C18" {
 			list = append(list, p+"/K")
+		}
+		if p == "C13" {
+			list = append(list, "C13/P")
 		}
 	}
 	for _, prop := range list {
